@@ -27,6 +27,7 @@ ASSUMPTIONS = [
 ]
 DECIDING = ['bp.app.fragment:Fragment._create', 'bp.agent:Agent.send_bundle', 'bp.agent:Agent._do_tx_step']
 REQUIRED_OBS = ['stack_fragmentations_checked', 'sends', 'fragmenting_sends', 'fragments_checked', 'unchanged_sends_checked', 'impossible_sends', 'unnumbered_sends', 'resends_checked']
+RULE = RULE + " Whole-stack runs (vf.stack): three hosts X-Y-Z, each a real BP agent bound through bp/cla.py and the in-process bus to real UDPCL/TCPCL agents over the simulated network (datagrams reordered and duplicated, BP and UDPCL MTUs, 2-14 bundles with report requests per scenario); judged per node, conditional on what the node's adaptor popped and what the agent handed to the adaptor's sender; the stack_* counters say what was compared."
 
 NODE = 'dtn://me/'
 
